@@ -174,6 +174,27 @@ def run(ctx, replay=None):
             cases.append(expr_case(e, g2, dbg=rnd.random() < 0.3))
         else:
             cases.append(script_case(e, g2, dbg=rnd.random() < 0.3))
+    # datetime arithmetic: instants up to ten days apart at millisecond resolution (the difference is an exact integer),
+    # datetime +/- milliseconds
+    for _ in range(ctx.pick(900, 20000)):
+        d0 = rnd.randint(1000, 3600000)
+        da = {'t': 'dt', 'd': d0, 'ms': rnd.randrange(86400000)}
+        db = {'t': 'dt', 'd': d0 + rnd.randint(-9, 9), 'ms': rnd.choice([rnd.randrange(86400000), (da['ms'] + rnd.randint(-5000, 5000)) % 86400000])}
+        g2 = [{'name': 'da', 'val': da}, {'name': 'db', 'val': db}, {'name': 'n', 'val': A.aval(float(rnd.randint(-10 ** 9, 10 ** 9)))}]
+        e = rnd.choice([{'k': 'bin', 'op': '-', 'l': var('da'), 'r': var('db')},
+                        {'k': 'bin', 'op': '==', 'l': {'k': 'bin', 'op': '-', 'l': var('da'), 'r': var('db')}, 'r': var('n')},
+                        {'k': 'bin', 'op': '-', 'l': {'k': 'bin', 'op': '+', 'l': var('da'), 'r': var('n')}, 'r': var('da')},
+                        {'k': 'bin', 'op': '+', 'l': gen_jump.s(''), 'r': {'k': 'bin', 'op': '-', 'l': var('da'), 'r': var('db')}}])
+        cases.append(expr_case(e, g2) if rnd.random() < 0.5 else script_case(e, g2))
+    # arrays are ordered element by element, the length decides only between a prefix and its extension
+    def rarr(d=0):
+        return [rnd.choice([0, 1, 2, 3, 'a', None, True]) if d or rnd.random() < 0.85 else rarr(d + 1) for _ in range(rnd.randint(0, 3))]
+    for _ in range(ctx.pick(500, 10000)):
+        xa = rarr()
+        xb = rarr() if rnd.random() < 0.5 else xa[:rnd.randint(0, len(xa))] + rarr()[:rnd.randint(0, 2)]
+        g2 = [{'name': 'xa', 'val': A.aval(xa)}, {'name': 'xb', 'val': A.aval(xb)}]
+        e = {'k': 'bin', 'op': rnd.choice(['<', '<=', '>', '>=', '==', '!=']), 'l': var('xa'), 'r': var('xb')}
+        cases.append(expr_case(e, g2) if rnd.random() < 0.5 else script_case(e, g2))
     F.judge(ctx, 'Trace_Core', cases, canaries, invariants=c08.INVS, describe=describe,
             key_fields=('kind', 'expr', 'model', 'globals'), nontrivial=lambda c: True)
     # alias clause
